@@ -732,7 +732,61 @@ impl<'r> Grammar<'r> {
                         self.km(&v, Mark::Closer(depth + 1));
                         let nm = self.rng.range(1, 3);
                         for _ in 0..nm {
-                            match self.rng.below(7) {
+                            match self.rng.below(8) {
+                                7 => {
+                                    // nested declaration section; it lasts until the next member that starts with a keyword
+                                    let kind = self.rng.below(4);
+                                    match kind {
+                                        0 => self.km("const", Mark::Start(depth + 2)),
+                                        1 => self.km("var", Mark::Start(depth + 2)),
+                                        2 => self.km("type", Mark::Start(depth + 2)),
+                                        _ => {
+                                            self.km("class", Mark::Start(depth + 2));
+                                            self.k("var");
+                                        }
+                                    }
+                                    let n = self.rng.range(1, 2);
+                                    for _ in 0..n {
+                                        let i = format!("{}{}", if kind == 2 { "T" } else { "C" }, self.ident());
+                                        self.tm(&i, Mark::Start(depth + 3));
+                                        match kind {
+                                            0 => {
+                                                self.t("=");
+                                                self.t("5");
+                                            }
+                                            2 => {
+                                                self.t("=");
+                                                self.t("Integer");
+                                            }
+                                            _ => {
+                                                self.t(":");
+                                                let ty = self.rng.pick(TYPES).to_string();
+                                                self.t(&ty);
+                                            }
+                                        }
+                                        self.t(";");
+                                    }
+                                    match self.rng.below(3) {
+                                        0 => {
+                                            self.km("property", Mark::Start(depth + 2));
+                                            let i = self.ident();
+                                            self.t(&i);
+                                            self.t(":");
+                                            self.t("Integer");
+                                            self.k("read");
+                                            self.t("FValue");
+                                            self.t(";");
+                                        }
+                                        1 => {
+                                            self.routine_header(depth + 2, false);
+                                        }
+                                        _ => {
+                                            self.km("constructor", Mark::Start(depth + 2));
+                                            self.t("Create");
+                                            self.t(";");
+                                        }
+                                    }
+                                }
                                 3 => {
                                     // class method
                                     self.km("class", Mark::Start(depth + 2));
@@ -1205,7 +1259,11 @@ fn needs_sep(a: &str, b: &str) -> bool {
 const COMMENTS_INLINE: &[&str] = &["{ c }", "(* c *)", "{}", "(**)", "{ x } { y }"];
 const COMMENTS_LINE: &[&str] = &["// c", "//c", "/// doc", "//", "//   spaced   ", "//-----------------", "// trailing  \t", "//!bang", "//  ", "// ", "///\t", "///  x ", "//\u{c}"];
 const COMMENTS_MULTI: &[&str] = &["{ a\n  b }", "(* a\n\n b *)"];
-const DIRECTIVES: &[&str] = &["{$R+}", "{$define foo}", "{$region 'x'}", "{$i inc.inc}", "(*$hints off*)", "{$WARN SYMBOL_PLATFORM OFF}"];
+const DIRECTIVES: &[&str] = &[
+    "{$R+}", "{$define foo}", "{$region 'x'}", "{$i inc.inc}", "(*$hints off*)", "{$WARN SYMBOL_PLATFORM OFF}", "{$I defs.inc}",
+    "{$r forms.res}", "{$l\thelper.obj}", "(*$e dll*)", "{$m 16384,1048576}", "{$R *.res}", "{$d 'x'}", "{$r+,q-}", "{$z4}",
+    "{$a8}", "{$minenumsize 4}", "{$i  two.inc}", "{$warn symbol_platform off}", "{$h+ on}", "{$x}",
+];
 
 /// Render a program with arbitrary layout.  Returns the text.
 /// Gaps touching a comment always keep their line-break structure explicit (the comment generator
@@ -1214,7 +1272,7 @@ pub fn render_layout(p: &Program, rng: &mut Rng, o: LayoutOpts) -> String {
     let nl = if o.crlf { "\r\n" } else { "\n" };
     let mut s = String::new();
     let mut prev: Option<&str> = None;
-    let mut open_stack: Vec<(u16, bool)> = vec![];
+    let mut open_stack: Vec<(u16, bool, bool)> = vec![];
     for (ti, t) in p.toks.iter().enumerate() {
         // positions at which a `//` comment at the end of the line leaves every statement where it is: after the end of
         // a statement, after a block/branch opener, after the colon of a label (`line_comments_only` mode)
@@ -1229,16 +1287,20 @@ pub fn render_layout(p: &Program, rng: &mut Rng, o: LayoutOpts) -> String {
         // switched to an {$else} branch that wraps the next statement) before the next token that ends the
         // statement: a Start(x <= d) or a Closer(x < d)
         if o.directives {
-            let ends = |d: u16, m: Mark| match m {
+            // a wrapper opened at a visibility keyword (`vis`) wraps whole visibility sections: it ends at the next
+            // visibility keyword or at the `end` of the class
+            let is_vis_kw = |t: &GTok| matches!(t.mark, Mark::Closer(_)) && matches!(t.text.to_ascii_lowercase().as_str(), "private" | "protected" | "public" | "published");
+            let ends = |(d, _, vis): (u16, bool, bool), m: Mark| match m {
                 Mark::Start(x) => x <= d,
-                Mark::Closer(x) => x < d,
+                Mark::Closer(x) => x < d || (vis && x == d),
                 _ => false,
             };
             let mut closed_here = false;
-            if let Some(&(d, in_else)) = open_stack.last() {
-                if ends(d, t.mark) {
+            if let Some(&(d, in_else, vis)) = open_stack.last() {
+                if ends((d, in_else, vis), t.mark) {
                     s.push_str(nl);
-                    if !in_else && matches!(t.mark, Mark::Start(x) if x == d) && rng.chance(1, 3) {
+                    let sibling = if vis { is_vis_kw(t) && matches!(t.mark, Mark::Closer(x) if x == d) } else { matches!(t.mark, Mark::Start(x) if x == d) };
+                    if !in_else && sibling && rng.chance(1, if o.line_comments_only { 2 } else { 3 }) {
                         s.push_str("{$else}");
                         open_stack.last_mut().unwrap().1 = true;
                     } else {
@@ -1251,8 +1313,8 @@ pub fn render_layout(p: &Program, rng: &mut Rng, o: LayoutOpts) -> String {
                 }
             }
             // close any further enclosing wrappers that also end here
-            while let Some(&(d, _)) = open_stack.last() {
-                if closed_here && ends(d, t.mark) && !s.ends_with(&format!("{{$else}}{}", nl)) {
+            while let Some(&e) = open_stack.last() {
+                if closed_here && ends(e, t.mark) && !s.ends_with(&format!("{{$else}}{}", nl)) {
                     s.push_str("{$endif}");
                     s.push_str(nl);
                     open_stack.pop();
@@ -1260,14 +1322,21 @@ pub fn render_layout(p: &Program, rng: &mut Rng, o: LayoutOpts) -> String {
                     break;
                 }
             }
-            if let Mark::Start(d) = t.mark {
-                if open_stack.len() < 2 && !s.ends_with(&format!("{{$else}}{}", nl)) && rng.chance(1, 12) {
+            let open_at = match t.mark {
+                Mark::Start(d) => Some((d, false)),
+                Mark::Closer(d) if o.line_comments_only && is_vis_kw(t) => Some((d, true)),
+                _ => None,
+            };
+            if let Some((d, vis)) = open_at {
+                // marked programs: only whole statements and members are wrapped (a routine header at depth 0 is not a whole declaration)
+                let wrap_ok = if o.line_comments_only { d >= 1 && rng.chance(1, 6) } else { rng.chance(1, 12) };
+                if open_stack.len() < 2 && !s.ends_with(&format!("{{$else}}{}", nl)) && wrap_ok {
                     if !s.is_empty() && !s.ends_with('\n') {
                         s.push_str(nl);
                     }
                     s.push_str(rng.pick_str(&["{$ifdef FOO}", "{$IFNDEF bar}", "{$if defined(X) and (Y > 1)}", "(*$ifdef A*)", "{$ifopt R+}"]));
                     s.push_str(nl);
-                    open_stack.push((d, false));
+                    open_stack.push((d, false, vis));
                     prev = None;
                 }
             }
